@@ -185,7 +185,7 @@ def judge_output(out, indent, with_comments=False):
     return None, out
 
 
-COMMENT_SPELLINGS = ['/*c*/', '//c\n', '// y \n', '/* x\t*/', '/*c\nd*/']
+COMMENT_SPELLINGS = ['/*c*/', '//c\n', '// y \n', '/* x\t*/', '/*c\nd*/', '//c\r\n', '//c\r', '/*c\r\nd*/']
 
 
 def _comment_job(chunk):
